@@ -296,7 +296,7 @@ def gen_op(rnd, p, prof, last_build=None):
         b = ('build', [top], dict(j=j, keep=rnd.random() < prof['p_keep'], forced=False))
         return [b, ('flag', n, 1), b, b, ('flag', n, 0), b, b]
     if op == 'uwrite':
-        return ('uwrite', rnd.choice(tnames), rnd.choice(['inplace', 'replace', 'symlink'] if prof.get('user_symlinks') else ['inplace', 'replace']))
+        return ('uwrite', rnd.choice(tnames), rnd.choice(['inplace', 'replace', 'symlink', 'samesize'] if prof.get('user_symlinks') else ['inplace', 'replace', 'samesize']))
     if op == 'edit_back':
         c = [n for n in sorted(p.sources) if p.sources[n]['r'] > 0]
         return ('edit_back', rnd.choice(c)) if c else None
